@@ -81,7 +81,8 @@ class KaniUnit:
         if only:
             filters = expected
         if not expected:
-            r.inconclusive.append("no harness matches %s" % self.prefix)
+            if not only:
+                r.inconclusive.append("no harness matches %s" % self.prefix)
             return r
         timeout = self.quick_timeout if tier == "quick" else self.thorough_timeout
         log("[%s] %d harnesses, per-harness timeout %ds" % (self.name, len(expected), timeout))
